@@ -56,7 +56,25 @@ def build(rng, tier):
             t = r2.choice([4, 8, 16])
             ops = [f"eng perturb {1 + r2.below(10 ** 9)}", f"eng new {inst} {pid} par {t}"] + engcheck.load_ops(inst, inp) + [f"eng run {inst}", f"eng dump {inst}", "eng perturb 0"]
             cases.append(engcheck.Case(pid, inst, ops, {"inp": inp, "kind": "par-lattice-stress", "dump_at": -2}))
+    # the same with MANY fresh keys (slot-major input: the workers derive the same keys at about the same time while other workers insert
+    # different keys into the same DashMap shard - a re-check that gives up on a locked shard instead of waiting would create a second row)
+    sl = {"rels": [{"arity": 2}, {"arity": 2, "lat": "min"}],
+          "rules": [{"heads": [(1, [("var", 0), ("var", 1)])], "body": [("cl", 0, [("v", 0), ("v", 1)], [])]}]}
+    progs["stresslat_many"] = sl
+    mods.append(("stresslat_many", eng.rs_module("stresslat_many", sl, macro="ascent_par")))
+    for j in range(6 if tier == "quick" else 40):
+        inst = f"stresslat_many_{j}"
+        r2 = rng.fork(inst)
+        nk = 4000
+        inp = {0: [(k, y) for y in range(12) for k in range(nk)]}
+        ops = [f"eng new {inst} stresslat_many par {r2.choice([8, 16])}"] + engcheck.load_ops(inst, inp) + [f"eng run {inst}", f"eng dump {inst}"]
+        cases.append(engcheck.Case("stresslat_many", inst, ops, {"inp": inp, "kind": "par-lattice-stress-many-keys", "no_model": True}))
     return progs, mods, cases
+
+
+def canon(c, out):
+    if c.meta.get("no_model"): return ["<too large for the executable model: judged by the oracle>" for _ in out]
+    return out
 
 
 def oracle(c, p, out):
@@ -87,7 +105,7 @@ def oracle(c, p, out):
 
 def check(tier, replay=None):
     return engcheck.run_property("C05", tier, modules=["AscentVerif.Props.C05", "AscentVerif.Props.C05Par"], theorems=THEOREMS, trusted=TRUSTED, group="c05",
-                                 build=build, oracle=oracle, what="row multiplicities of compiled programs",
+                                 build=build, oracle=oracle, canon=canon, what="row multiplicities of compiled programs",
                                  rule="generated programs (serial ascent! and ascent_par! twins) x inputs incl. duplicate rows and rows that are themselves "
                                       "derivable; after run() every input tuple must occur exactly as often as the caller inserted it and every other tuple once; "
                                       "non-trivial = all cases (diamond / symmetric rules derive tuples repeatedly); plus parallel stress programs: 16 seeds x 400 values deriving the same tuples, "
